@@ -791,6 +791,107 @@ fn c05_shape_twins(report: &mut Report, tier: Tier) {
     report.set("shape_twin_lint_steps", steps);
 }
 
+/// Order independence on a large document list: every seed, its lower-cased proper-noun frame,
+/// and every word-initial suffix of it behind four different left contexts (nothing, a comma, a
+/// closing quote, a paragraph break) is linted by warm linter A in list order and by warm linter B
+/// in reverse order; each document's two results must be equal (and equal to a brand-new linter's
+/// for every 16th document). State that learns from the previous match, and verdicts that depend on
+/// the character before a clause while the cache key does not, both make A and B disagree.
+fn c05_neighbours_and_contexts(report: &mut Report, tier: Tier) {
+    let h = crate::harvest::harvest();
+    let mut seeds: Vec<String> = h.seeds.iter().filter(|s| s.chars().count() <= 160).cloned().collect();
+    // alphabetical: phrases that are prefixes or variants of each other end up on the same linter
+    seeds.sort_by_key(|s| s.to_lowercase());
+    seeds.dedup();
+    let dict = product_dict();
+    let max_suffixes = tier.pick(6usize, 40usize);
+    let n = seeds.len() as u64;
+    let res = par_chunks(n, 60, ncpu(), |s, e| {
+        // documents in groups: a group is one text behind each of the four left contexts (or a
+        // single document); pass k walks the groups forward (k even) or backward (k odd) and starts
+        // every group with its k-th context
+        let mut docs: Vec<String> = vec![];
+        let mut groups: Vec<Vec<usize>> = vec![];
+        let push_single = |docs: &mut Vec<String>, groups: &mut Vec<Vec<usize>>, t: String| {
+            docs.push(t);
+            groups.push(vec![docs.len() - 1]);
+        };
+        for seed in &seeds[s as usize..e as usize] {
+            push_single(&mut docs, &mut groups, seed.clone());
+            if seed.chars().any(|c| c.is_uppercase()) && seed.chars().count() <= 60 {
+                push_single(&mut docs, &mut groups, format!("We saw {} there.", seed.to_lowercase()));
+            }
+            let toks = crate::spaces::coarse_tokens(seed);
+            let mut made = 0;
+            for t in 1..toks.len() {
+                if toks[t].chars().all(|c| c == ' ' || c == '\t') || made >= max_suffixes {
+                    continue;
+                }
+                made += 1;
+                let suf: String = toks[t..].concat();
+                let mut g = vec![];
+                for ctx in ["", ",", "\"q\"", "Well today!\n\n"] {
+                    docs.push(format!("{ctx}{suf}"));
+                    g.push(docs.len() - 1);
+                }
+                groups.push(g);
+            }
+        }
+        let lint_pass = |k: usize| -> HashMap<usize, Vec<LKey>> {
+            let mut order: Vec<usize> = vec![];
+            let gs: Vec<&Vec<usize>> = if k % 2 == 0 { groups.iter().collect() } else { groups.iter().rev().collect() };
+            for g in gs {
+                for j in 0..g.len() {
+                    order.push(g[(j + k) % g.len()]);
+                }
+            }
+            let mut g = LintGroup::new_curated(dict.clone(), Dialect::American);
+            let mut out = HashMap::new();
+            for i in order {
+                match catch(|| {
+                    let doc = Document::new(&docs[i], &PlainEnglish, &*dict);
+                    g.lint(&doc).iter().map(lkey).collect::<Vec<LKey>>()
+                }) {
+                    Ok(v) => {
+                        out.insert(i, v);
+                    }
+                    Err(_) => g = LintGroup::new_curated(dict.clone(), Dialect::American),
+                }
+            }
+            out
+        };
+        let passes: Vec<HashMap<usize, Vec<LKey>>> = (0..4).map(lint_pass).collect();
+        let a = &passes[0];
+        let mut viols: Vec<Violation> = vec![];
+        for i in 0..docs.len() {
+            let Some(x) = a.get(&i) else { continue };
+            let Some(y) = passes[1..].iter().filter_map(|p| p.get(&i)).find(|y| *y != x).or(passes[1].get(&i)) else { continue };
+            if x != y && viols.len() < 4 {
+                viols.push(Violation { sig: "order-of-earlier-documents-changes-result".into(), case: json!({"engine":"E2","object":"LintGroup","text": docs[i], "history": "the same document list linted in four different orders on four warm linters"}), detail: json!({"after_the_documents_before_it": x, "after_the_documents_behind_it": y}) });
+            }
+            if i % 16 == 0 {
+                let fresh: Vec<LKey> = catch(|| {
+                    let doc = Document::new(&docs[i], &PlainEnglish, &*dict);
+                    LintGroup::new_curated(dict.clone(), Dialect::American).lint(&doc).iter().map(lkey).collect::<Vec<LKey>>()
+                })
+                .unwrap_or_default();
+                if *x != fresh && viols.len() < 4 {
+                    viols.push(Violation { sig: "order-of-earlier-documents-changes-result:differs-from-fresh".into(), case: json!({"engine":"E2","object":"LintGroup","text": docs[i]}), detail: json!({"warm": x, "fresh": fresh}) });
+                }
+            }
+        }
+        (4 * docs.len() as u64, viols)
+    });
+    let mut steps = 0;
+    for (st, vs) in res {
+        steps += st;
+        for v in vs {
+            report.violation(v);
+        }
+    }
+    report.set("order_independence_lint_steps", steps);
+}
+
 /// The same clauses under two dictionaries and four parser compositions (plain, Markdown, each
 /// optionally behind IsolateEnglish), every ordered sequence up to a depth on ONE thread, each step
 /// compared with the same (text, parser, dictionary) evaluated on a fresh thread: per-thread or
@@ -931,6 +1032,7 @@ pub fn run_c05(tier: Tier) -> i32 {
     report.set("histories", n);
     report.set("lint_steps_on_a_warm_linter", hits);
     c05_shape_twins(&mut report, tier);
+    c05_neighbours_and_contexts(&mut report, tier);
     c05_dictionaries_and_parsers(&mut report, tier);
 
     // threads: every assignment of 4 menu slices to 2 and 3 free-running OS threads, each with its
